@@ -2,7 +2,7 @@
   C11 — BRANCH PINS for src/function/gamma.rs (`gamma`, `ln_gamma`, `checked_gamma_lr/ur/li/ui`,
   `digamma`, `inv_digamma`, `signum`).  Every theorem is branch logic and holds for EVERY carrier α
   (IEEE doubles included); hypotheses are the outcomes of the model's own comparisons, with the
-  SAME literals as the tables of `Statrs/Draft/Spec/FunctionBranches.lean`.
+  SAME literals as the tables of `Statrs/Spec/FunctionBranches.lean`.
 
   What is pinned:
   1. constants: `GAMMA_R = 10.900511`, `GAMMA_DK.length = 11`, the Lanczos sum runs over indices
@@ -23,7 +23,7 @@
 import Mathlib.Tactic
 import Statrs.Real.Simp
 import Statrs.Inst.Float
-import Statrs.Draft.Spec.FunctionBranches
+import Statrs.Spec.FunctionBranches
 namespace Statrs.Props.C11.BranchPins
 open Statrs Statrs.Gen Statrs.Spec.FunctionBranches
 set_option linter.unusedSectionVars false
